@@ -38,8 +38,11 @@ import (
 	"runtime"
 	"sort"
 	"sync"
+	"time"
 	"unsafe"
 )
+
+var _ time.Duration
 
 // VerifsimUDPConn stands where the library says *net.UDPConn (which satisfies
 // it): the simulator's datagram socket can then take the library's UDP branch
@@ -50,6 +53,18 @@ type VerifsimUDPConn interface {
 	WriteMsgUDP(b, oob []byte, addr *net.UDPAddr) (n, oobn int, err error)
 	ReadFromUDP(b []byte) (int, *net.UDPAddr, error)
 	WriteToUDP(b []byte, addr *net.UDPAddr) (int, error)
+	SetReadBuffer(bytes int) error
+	SetWriteBuffer(bytes int) error
+}
+
+// VerifsimTCPConn stands where a tree says *net.TCPConn (the pinned tree does
+// not; a changed one may, to reach a TCP-only socket option).
+type VerifsimTCPConn interface {
+	net.Conn
+	SetLinger(sec int) error
+	SetNoDelay(noDelay bool) error
+	SetKeepAlive(keepalive bool) error
+	SetKeepAlivePeriod(d time.Duration) error
 	SetReadBuffer(bytes int) error
 	SetWriteBuffer(bytes int) error
 }
@@ -382,11 +397,12 @@ func (rw *rewriter) countSockCalls(f *ast.File) {
 // the socket itself when it is the simulator's (the setsockopt calls need a
 // real descriptor).
 func udpRewrite(src []byte) ([]byte, int) {
-	n := bytes.Count(src, []byte("*net.UDPConn"))
+	n := bytes.Count(src, []byte("*net.UDPConn")) + bytes.Count(src, []byte("*net.TCPConn"))
 	if n == 0 {
 		return src, 0
 	}
 	src = bytes.ReplaceAll(src, []byte("*net.UDPConn"), []byte("VerifsimUDPConn"))
+	src = bytes.ReplaceAll(src, []byte("*net.TCPConn"), []byte("VerifsimTCPConn"))
 	sig := []byte("func setUDPSocketOptions(conn VerifsimUDPConn) error {\n")
 	if i := bytes.Index(src, sig); i >= 0 {
 		stub := "\tif s, ok := conn.(interface{ VerifsimSocketOptions() error }); ok {\n\t\treturn s.VerifsimSocketOptions()\n\t}\n"
